@@ -116,6 +116,13 @@ def UExpr.noJoin (e : UExpr) : UExpr :=
   | t :: _ => { e with sp := t.sp }
   | [] => e
 
+/-- The same for a path of several segments: the span its templates are stamped with (`path.span()`) is the first token's.
+The location of a path pattern is computed from its first and last segment separately and does not change. -/
+def UPath.noJoin (p : UPath) : UPath :=
+  match p.toks with
+  | t :: _ => { p with sp := t.sp }
+  | [] => p
+
 def Sp.startsAtOrAfterEndOf (a b : Sp) : Bool :=
   a.ls > b.le || (a.ls == b.le && a.cs ≥ b.ce)
 
@@ -138,8 +145,8 @@ mutual
 a multi-token expression is the span of its first token. -/
 def Pat.noJoin : Pat → Pat
   | .set id sp elems rest => .set id ⟨sp.ls, sp.cs, sp.ls, sp.cs + 1⟩ elems.noJoin rest
-  | .struct id path fields rest => .struct id path fields.noJoin rest
-  | .enum id path elems => .enum id path elems.noJoin
+  | .struct id path fields rest => .struct id (path.map UPath.noJoin) fields.noJoin rest
+  | .enum id path elems => .enum id path.noJoin elems.noJoin
   | .tuple id sp elems => .tuple id sp elems.noJoin
   | .slice id sp elems => .slice id sp elems.noJoin
   | .map id sp entries rest => .map id sp entries.noJoin rest
